@@ -143,10 +143,21 @@ def gen(tier, seed):
 def run(tier, seed):
     env.setup()
     res = Result("C19", tier, seed)
-    from .. import gjkloop
-    gjkloop.model_check(res, tier)        # design-level termination of the Jolt GJK loops (invariant Terminates, all tie-breaks)
-    from .. import libccdloop
-    libccdloop.model_check(res, tier)     # libccd GJK: the iteration cap is never the reason of an answer (NeverExhausted)
+    # design-level termination, model-checked concurrently: Jolt GJK loops (Terminates, all tie-breaks), libccd GJK (the iteration
+    # cap is never the reason of an answer: NeverExhausted), MPR (the uncapped refine loop: Terminates; penetration cap: PenNeverCapped)
+    from .. import gjkloop, libccdloop, mprloop
+    from concurrent.futures import ThreadPoolExecutor
+    subs = [Result("C19", tier, seed) for _ in range(3)]
+    with ThreadPoolExecutor(max_workers=3) as ex:
+        list(ex.map(lambda fr: fr[0](fr[1], tier), zip((gjkloop.model_check, libccdloop.model_check, mprloop.model_check), subs)))
+    for sub in subs:
+        res.violations += sub.violations
+        res.machinery_errors += sub.machinery_errors
+        for k, v in sub.coverage.items():
+            if isinstance(v, (int, float)) and not isinstance(v, bool) and isinstance(res.coverage.get(k, 0), (int, float)):
+                res.coverage[k] = res.coverage.get(k, 0) + v
+            elif k not in res.coverage or not res.coverage[k]:
+                res.coverage[k] = v
     recs, meta = gen(tier, seed)
     byid = {r["id"]: r for r in recs}
     rejects = trace.judge(recs, "narrow", "NarrowTrace", "NarrowTrace.cfg", "c19", res)
